@@ -72,8 +72,21 @@ def check(spec, ctx):
         for nd in requested[key]:
             if names.get(nd["resid"]) != nd["resname"]:
                 raise Violation("warning:names", f"warning names {names}, residue {nd['resid']} is {nd['resname']}")
+    # the edges R1 expects from blocks and applicable links (where it can tell): an atom-level edge that no
+    # applicable link defines does not realise a residue-graph edge
+    model_cross = None
+    if not pre.undetermined:
+        model_cross = set()
+        for pair in pre.edges:
+            a, b = tuple(pair)
+            ra, rb = pre.atoms[a - 1]["resid"], pre.atoms[b - 1]["resid"]
+            if ra != rb:
+                model_cross.add(frozenset((ra, rb)))
     n_missing = n_real = 0
     for key in requested:
+        if model_cross is not None and not pre.removed and key in cross and key not in model_cross and key not in warned:
+            raise Violation("neither", f"residues {sorted(key)}: not reported missing, and the only atom-level edge between "
+                                       f"them is defined by no applicable link")
         if key in cross and key in warned:
             raise Violation("both", f"residues {sorted(key)} are joined by an atom edge and reported missing")
         if key not in cross and key not in warned:
